@@ -7,23 +7,15 @@ import (
 	"fmt"
 	"os"
 
-	"verif/harness/suites/cursor"
-	"verif/harness/suites/stream"
+	"verif/harness/internal/reg"
 )
-
-type cmd func(args []string)
-
-var suites = map[string]map[string]cmd{
-	"cursor": {"replay": cursor.Replay, "record": cursor.Record, "rerun": cursor.Rerun},
-	"stream": {"replay": stream.Replay, "record": stream.Record, "rerun": stream.Rerun},
-}
 
 func main() {
 	if len(os.Args) < 3 {
 		fmt.Fprintln(os.Stderr, "usage: vdrive <suite> <mode> [flags]")
 		os.Exit(2)
 	}
-	s, ok := suites[os.Args[1]]
+	s, ok := reg.Suites[os.Args[1]]
 	if !ok {
 		fmt.Fprintln(os.Stderr, "unknown suite", os.Args[1])
 		os.Exit(2)
